@@ -36,10 +36,26 @@ type Case struct {
 	Demux     bool  `json:"demux,omitempty"` // abaco: go through packets + AbacoGroup.demuxData (all channels of the group)
 	PF        int   `json:"pf,omitempty"`    // abaco demux: frames per packet; roach stream: samples per packet
 	Stream    bool  `json:"stream,omitempty"` // roach: go through UDP packets + RoachDevice.readPackets (all channels)
+	Resample  bool  `json:"resample,omitempty"` // roach: the device is sampled, used, and sampled again before the run
+	// kind "abacosrc": ONE AbacoSource object goes through several rounds of Configure -> Sample -> data;
+	// the fields above describe the first round, More the following ones (same channel group)
+	More []Round `json:"more,omitempty"`
 	// the stream and the call boundaries (chunk lengths; the rest of the stream is a final call)
 	Xs   []int `json:"xs"`
 	Cuts []int `json:"cuts"`
 	Note string `json:"note,omitempty"`
+}
+
+// Round is one further Configure -> Sample -> data round of an "abacosrc" case.
+type Round struct {
+	Rescale bool  `json:"rescale"`
+	Unwrap  bool  `json:"unwrap"`
+	BiasOn  bool  `json:"biason"`
+	RA      int64 `json:"ra"`
+	PS      int64 `json:"ps"`
+	InvChan []int `json:"invchan"`
+	Xs      []int `json:"xs"`
+	Cuts    []int `json:"cuts"`
 }
 
 // ---------- what the configuration means (harness-side bookkeeping for generators and tags only) ----------
@@ -78,7 +94,7 @@ func (c *Case) info() cfgInfo {
 	switch c.Kind {
 	case "api":
 		f, d, en, bias, ra, inv = c.F, c.D, c.En, c.Bias, c.RA, c.Inv
-	case "abaco":
+	case "abaco", "abacosrc":
 		f, d = 16, 0
 		if c.Rescale {
 			d = 4
@@ -405,6 +421,9 @@ func genOptions(r *lib.Rng, c *Case, kind string, malformed bool) {
 		c.Demux = r.Bool()
 		c.PF = r.Pick([]int{1, 2, 3, 7, 16, 50})
 	}
+	if kind == "roach" {
+		c.Resample = r.Bool()
+	}
 	if kind == "roach" && r.Chance(1, 6) {
 		// each such case costs at least readPackets' 100 ms bundling window
 		c.Stream = true
@@ -431,8 +450,10 @@ func genCase(r *lib.Rng, id int64, tier string) Case {
 		genAPI(r, &c)
 	case k < 9:
 		genMalformedAPI(r, &c)
-	case k < 14:
+	case k < 12:
 		genOptions(r, &c, "abaco", false)
+	case k < 14:
+		return genSourceCase(r, id)
 	case k < 15:
 		genOptions(r, &c, "abaco", true)
 	case k < 19:
@@ -452,6 +473,57 @@ func genCase(r *lib.Rng, id int64, tier string) Case {
 	c.Cuts = genCuts(r, len(c.Xs), ci)
 	if c.Stream {
 		c.Cuts = nil
+	}
+	return c
+}
+
+// genSourceCase: 2-4 rounds on one AbacoSource object, every round with its own option set, stream and cuts,
+// all on the same channel group.  Consecutive rounds are made to differ (bit drop, unwrap on/off, bias,
+// pulse sign, inversion of the observed channel, reset interval); now and then a round is refused by
+// Configure or makes Sample() panic (ResetAfter <= 0), and the source must still serve the next round.
+func genSourceCase(r *lib.Rng, id int64) Case {
+	c := Case{ID: id}
+	genOptions(r, &c, "abaco", false)
+	c.Kind = "abacosrc"
+	c.Demux = false
+	if c.PF == 0 {
+		c.PF = 3
+	}
+	fill := func(rc *Case) {
+		ci := rc.info()
+		n := r.Range(2, 50)
+		rc.Xs = genStream(r, ci, n)
+		rc.Cuts = genCuts(r, len(rc.Xs), ci)
+	}
+	fill(&c)
+	prev := c
+	for k := r.Range(1, 3); k > 0; k-- {
+		rc := Case{Kind: "abaco", FirstChan: c.FirstChan, NChan: c.NChan, Idx: c.Idx}
+		genOptions(r, &rc, "abaco", r.Chance(1, 8))
+		rc.FirstChan, rc.NChan, rc.Idx = c.FirstChan, c.NChan, c.Idx
+		switch r.Intn(5) { // make sure something the previous round fixed is different now
+		case 0:
+			rc.Rescale, rc.Unwrap = !prev.Rescale, !prev.Rescale && r.Bool()
+		case 1:
+			rc.Rescale, rc.Unwrap = true, !prev.Unwrap
+		case 2:
+			rc.Rescale, rc.Unwrap, rc.BiasOn, rc.PS = true, true, !prev.BiasOn, -prev.PS
+			if rc.PS == 0 {
+				rc.PS = -1
+			}
+		case 3:
+			rc.InvChan = nil
+			if !prev.info().inv {
+				rc.InvChan = []int{c.FirstChan + c.Idx}
+			}
+		default:
+			rc.Rescale, rc.Unwrap = true, true
+			rc.RA = prev.RA%7 + 1
+		}
+		fill(&rc)
+		c.More = append(c.More, Round{Rescale: rc.Rescale, Unwrap: rc.Unwrap, BiasOn: rc.BiasOn, RA: rc.RA, PS: rc.PS,
+			InvChan: rc.InvChan, Xs: rc.Xs, Cuts: rc.Cuts})
+		prev = rc
 	}
 	return c
 }
@@ -511,6 +583,14 @@ func corpus() []Case {
 		{Kind: "abaco", Rescale: false, Unwrap: false, PS: 1, RA: 5, NChan: 3, Idx: 2, FirstChan: 8, InvChan: []int{10}, Xs: []int{0, 1, 65535, 32768, 12345}},
 		{Kind: "abaco", Rescale: false, Unwrap: true, PS: 1, RA: 5, NChan: 1, Xs: []int{1, 2, 3}},
 		{Kind: "abaco", Rescale: true, Unwrap: true, PS: 1, RA: 0, NChan: 1, Xs: []int{1, 2, 3}},
+		// one AbacoSource: raw pass-through run, then reconfigured to rescale + unwrap (+ inversion), then back
+		{Kind: "abacosrc", Rescale: false, Unwrap: false, PS: 1, RA: 5, FirstChan: 8, NChan: 2, Idx: 0, PF: 2,
+			Xs: []int{1600, 1616, 1632, 1648}, Cuts: []int{2},
+			More: []Round{
+				{Rescale: true, Unwrap: true, RA: 20000, PS: 1, Xs: []int{1600, 1616, 1632, 1648}, Cuts: []int{1, 1}},
+				{Rescale: true, Unwrap: true, BiasOn: true, RA: 2, PS: -1, InvChan: []int{8}, Xs: []int{0, 60000, 60000, 60000, 60000, 100}},
+				{Rescale: false, Unwrap: false, PS: 1, RA: 5, Xs: []int{7, 65535, 12}},
+			}},
 		// TestUnwrap's biased sequence (f=16, d=2, bias 10000)
 		{Kind: "api", F: 16, D: 2, En: true, Bias: 10000, RA: 100, PS: 1,
 			Xs: []int{20000, 20080, 20120, 20100, 20100, 64100, 64100, 38564, 38564, 10564, 10564, 36100}, Cuts: []int{5, 1}},
@@ -584,7 +664,16 @@ func (c *Case) construct() (u *dastard.PhaseUnwrapper, built string, err error) 
 		}
 		return u, "ok", nil
 	case "roach":
-		u, rej, e := dastard.VerifC12RoachUnwrapper(c.options())
+		var u *dastard.PhaseUnwrapper
+		var rej bool
+		var e error
+		if c.Resample {
+			// a device that was sampled and used before: leave home, then some of the case's own stream
+			junk := append([]uint16{0, 30000, 30000}, otherChannel(c.Xs, 3)...)
+			u, rej, e = dastard.VerifC12RoachUnwrapperResampled(c.options(), junk)
+		} else {
+			u, rej, e = dastard.VerifC12RoachUnwrapper(c.options())
+		}
 		if rej {
 			return nil, "rejected", nil
 		}
@@ -685,7 +774,7 @@ func otherChannel(xs []int, ch int) []uint16 {
 
 // runDemux runs the case through AbacoGroup.demuxData: every channel of the group gets a stream (channel
 // Idx gets the case's stream), once as a single call and once cut into the case's calls.
-func (c *Case) runDemux(chunks [][]int) (built string, single []int, split [][]int, err error) {
+func (c *Case) runDemux(chunks [][]int, src *dastard.VerifC12AbacoSource) (built string, single []int, split [][]int, err error) {
 	defer func() {
 		if e := recover(); e != nil {
 			built, single, split, err = "panic", nil, nil, nil
@@ -717,14 +806,27 @@ func (c *Case) runDemux(chunks [][]int) (built string, single []int, split [][]i
 		}
 		return out
 	}
-	o1, e := dastard.VerifC12AbacoDemux(c.options(), c.FirstChan, c.NChan, mkCalls([][]int{c.Xs}), c.PF)
+	// run = build the group(s) afresh for the case's options and push the calls through demuxData
+	run := func(calls [][][]uint16) ([][][]uint16, error) {
+		return dastard.VerifC12AbacoDemux(c.options(), c.FirstChan, c.NChan, calls, c.PF)
+	}
+	if src != nil {
+		// the long-lived source: Configure once for this round, then every run starts with the real Sample()
+		if e := src.Configure(c.options()); e != nil {
+			return "rejected", nil, nil, nil
+		}
+		run = func(calls [][][]uint16) ([][][]uint16, error) {
+			return src.SampleAndDemux(c.FirstChan, c.NChan, calls, c.PF)
+		}
+	}
+	o1, e := run(mkCalls([][]int{c.Xs}))
 	if e == dastard.ErrVerifC12Rejected {
 		return "rejected", nil, nil, nil
 	}
 	if e != nil {
 		return "", nil, nil, e
 	}
-	o2, e := dastard.VerifC12AbacoDemux(c.options(), c.FirstChan, c.NChan, mkCalls(chunks), c.PF)
+	o2, e := run(mkCalls(chunks))
 	if e != nil {
 		return "", nil, nil, e
 	}
@@ -771,7 +873,63 @@ func (c *Case) runRoachStream() (built string, single []int, err error) {
 	return "ok", single, nil
 }
 
+// runCase runs all rounds of a case (one, except for kind "abacosrc").
 func runCase(c Case) (lib.Result, error) {
+	hc := c
+	hc.ID, hc.Note = 0, ""
+	hash := lib.Hash(hc)
+	if c.Kind != "abacosrc" {
+		res, _, err := runRound(c, nil)
+		res.Hash = hash
+		if err == nil {
+			res.Term = "mk " + res.Term
+		}
+		return res, err
+	}
+	src, err := dastard.VerifC12NewAbacoSource()
+	if err != nil {
+		return lib.Result{ID: c.ID}, err
+	}
+	rounds := []Round{{Rescale: c.Rescale, Unwrap: c.Unwrap, BiasOn: c.BiasOn, RA: c.RA, PS: c.PS, InvChan: c.InvChan, Xs: c.Xs, Cuts: c.Cuts}}
+	rounds = append(rounds, c.More...)
+	out := lib.Result{ID: c.ID, Hash: hash}
+	tagset := map[string]bool{"kind-abacosrc": true, fmt.Sprintf("source-rounds-%d", len(rounds)): true}
+	var terms []string
+	var obs []observed
+	okRounds := 0
+	for _, rd := range rounds {
+		rc := Case{ID: c.ID, Kind: "abaco", Demux: true, PF: c.PF, FirstChan: c.FirstChan, NChan: c.NChan, Idx: c.Idx,
+			Rescale: rd.Rescale, Unwrap: rd.Unwrap, BiasOn: rd.BiasOn, RA: rd.RA, PS: rd.PS, InvChan: rd.InvChan,
+			Xs: append([]int(nil), rd.Xs...), Cuts: rd.Cuts}
+		res, ob, err := runRound(rc, src)
+		if err != nil {
+			return out, err
+		}
+		terms = append(terms, "rd "+res.Term)
+		obs = append(obs, ob)
+		for _, t := range res.Tags {
+			if t != "kind-abaco" && t != "abaco-demux" {
+				tagset[t] = true
+			}
+		}
+		if ob.Built == "ok" {
+			okRounds++
+		}
+		out.NonTrivial = out.NonTrivial || res.NonTrivial
+	}
+	out.NonTrivial = out.NonTrivial && okRounds >= 2
+	out.Term = "mkr " + lib.List(terms)
+	out.Impl = obs
+	for t := range tagset {
+		out.Tags = append(out.Tags, t)
+	}
+	sort.Strings(out.Tags)
+	return out, nil
+}
+
+// runRound runs one round on the implementation; the Term of the result is "<kind> <chunks> <obs>" (the
+// caller prefixes mk / rd).  src != nil: the round goes through that long-lived AbacoSource.
+func runRound(c Case, src *dastard.VerifC12AbacoSource) (lib.Result, observed, error) {
 	for i := range c.Xs {
 		c.Xs[i] &= 0xffff
 	}
@@ -789,11 +947,11 @@ func runCase(c Case) (lib.Result, error) {
 		c.Cuts = nil
 	}
 	res := lib.Result{ID: c.ID}
-	hc := c
-	hc.ID, hc.Note = 0, ""
-	res.Hash = lib.Hash(hc)
 	chunks := chunksOf(c.Xs, c.Cuts)
 	tags := map[string]bool{"kind-" + c.Kind: true}
+	if c.Kind == "roach" && c.Resample && !c.Stream {
+		tags["roach-resampled-device"] = true
+	}
 	ci := c.info()
 
 	var ob observed
@@ -803,7 +961,7 @@ func runCase(c Case) (lib.Result, error) {
 	viaSource := (c.Kind == "abaco" && c.Demux) || (c.Kind == "roach" && c.Stream)
 	if c.Kind == "abaco" && c.Demux {
 		tags["abaco-demux"] = true
-		built, ob.Single, ob.Split, err = c.runDemux(chunks)
+		built, ob.Single, ob.Split, err = c.runDemux(chunks, src)
 		if built == "ok" {
 			// a second construction by the direct route, only to read the limits for the tags below
 			u1, _, _ = c.construct()
@@ -819,7 +977,7 @@ func runCase(c Case) (lib.Result, error) {
 		u1, built, err = c.construct()
 	}
 	if err != nil {
-		return res, err
+		return res, ob, err
 	}
 	ob.Built = built
 	var obsTerm string
@@ -835,10 +993,10 @@ func runCase(c Case) (lib.Result, error) {
 			ob.Single = unwrap(u1, c.Xs)
 			u2, b2, err := c.construct()
 			if err != nil {
-				return res, err
+				return res, ob, err
 			}
 			if b2 != "ok" {
-				return res, fmt.Errorf("construction is not repeatable: %s then %s", built, b2)
+				return res, ob, fmt.Errorf("construction is not repeatable: %s then %s", built, b2)
 			}
 			ob.Split = make([][]int, len(chunks))
 			for i, ch := range chunks {
@@ -847,7 +1005,7 @@ func runCase(c Case) (lib.Result, error) {
 		}
 		obsTerm = fmt.Sprintf("(ok %s %s)", zlist(ob.Single), zlistlist(ob.Split))
 	}
-	res.Term = fmt.Sprintf("mk %s %s %s", c.kindTerm(), zlistlist(chunks), obsTerm)
+	res.Term = fmt.Sprintf("%s %s %s", c.kindTerm(), zlistlist(chunks), obsTerm)
 	res.Impl = ob
 
 	// tags / non-triviality (bookkeeping only; the verdict is computed in Coq)
@@ -923,7 +1081,7 @@ func runCase(c Case) (lib.Result, error) {
 		res.Tags = append(res.Tags, t)
 	}
 	sort.Strings(res.Tags)
-	return res, nil
+	return res, ob, nil
 }
 
 func main() {
